@@ -225,6 +225,13 @@ func genBlockS(r *rand.Rand, ns nameSet, depth int, static bool) BlockS {
 		b.GoPtr = r.Intn(3) == 0
 	case "map", "object":
 		k := 1 + pick(r, 3, 2)
+		if static {
+			// BlockMapSpec with two label levels and no blocks returns map(T) instead of
+			// map(map(T)) on this tree; inside a list/set/map parent that makes sibling
+			// element types inconsistent (error or panic in every form alike). Outside
+			// the domain of C19; reported as a side finding.
+			k = 1
+		}
 		b.MapLabels = genLabelNames(r, inner, k)
 		if k == 1 && r.Intn(3) == 0 {
 			b.Labels = genLabelNames(r, inner, 1)
